@@ -1,6 +1,7 @@
 import Driver.Sexp
 import Driver.C10
 import Driver.C11
+import Driver.C12
 import Driver.C13
 import Driver.C14
 import Driver.C15
@@ -16,6 +17,7 @@ def dispatch (op : String) (args : List Sx) : Option Sx :=
   if op == "echo" then echo args
   else if op.startsWith "c10." then C10.handle op args
   else if op.startsWith "c11." then C11.handle op args
+  else if op.startsWith "c12." then C12.handle op args
   else if op.startsWith "c13." then C13.handle op args
   else if op.startsWith "c14." then C14.handle op args
   else if op.startsWith "c15." then C15.handle op args
